@@ -1,6 +1,13 @@
 """Which properties are claimed, at what level, and which are not (with the reason)."""
 
-from .manifest import NOT_APPLICABLE, claim
+# property id -> (category, technique, level text, level note, design ref)
+CLAIMS: dict[str, tuple[str, str, str, str, str]] = {}
+NOT_APPLICABLE: dict[str, str] = {}
+
+
+def claim(pid: str, category: str, technique: str, text: str, note: str, ref: str) -> None:
+    CLAIMS[pid] = (category, technique, text, note, ref)
+
 
 claim(
     'C19', 'proof', 'ownership / set-reset pairing on all paths / capture dataflow (AST path enumeration + call graph)',
@@ -16,8 +23,10 @@ claim(
 )
 
 _WIP = 'check under construction in this session; not claimed until its rules run clean on the tree'
-for _i in range(1, 21):
-    _pid = f'C{_i:02d}'
-    from .manifest import CLAIMS as _C
-    if _pid not in _C:
-        NOT_APPLICABLE[_pid] = _WIP
+
+
+def finalize() -> None:
+    for i in range(1, 21):
+        pid = f'C{i:02d}'
+        if pid not in CLAIMS and pid not in NOT_APPLICABLE:
+            NOT_APPLICABLE[pid] = _WIP
